@@ -823,9 +823,17 @@ fn process_incoming_text_message<T: Read + Write>(
                 Ok(id) => {
                     match file_context {
                         Some(fc) => {
-                            // todo add check for !stream.one_pass
                             if let Some(pos) = fc.streams.iter().position(|x| x.id == id) {
                                 match command {
+                                    _ if fc.streams[pos].one_pass && command != "stop" => {
+                                        // the msgs of a one_pass stream are drained after they have been sent
+                                        websocket
+                                            .write_message(Message::Text(format!(
+                                                "err: {} not supported for one_pass streams!",
+                                                command
+                                            )))
+                                            .unwrap(); // todo
+                                    }
                                     "stream_search" => {
                                         // search within the stream for all messages matching the filters:
                                         let stream = &fc.streams[pos];
@@ -1911,9 +1919,11 @@ fn process_file_context<T: Read + Write>(
     // in any stream any messages to send?
     let all_msgs_len = fc.all_msgs.len() + fc.drained_all_msgs;
     for stream in &mut fc.streams {
-        let last_all_msgs_last_processed_len =
-            std::cmp::min(stream.all_msgs_last_processed_len, all_msgs_len);
-        // assert!(last_all_msgs_last_processed_len >= fc.drained_all_msgs);
+        // a stream created after msgs have been drained already (collect mode one_pass_streams) starts with the first msg still available
+        let last_all_msgs_last_processed_len = std::cmp::max(
+            std::cmp::min(stream.all_msgs_last_processed_len, all_msgs_len),
+            fc.drained_all_msgs,
+        );
         process_stream_new_msgs(
             stream,
             last_all_msgs_last_processed_len,
@@ -1966,7 +1976,9 @@ fn process_file_context<T: Read + Write>(
                         } else {
                             i
                         };
-                        // assert!(msg_idx >= fc.drained_all_msgs);
+                        if msg_idx < fc.drained_all_msgs {
+                            continue; // drained already (collect mode one_pass_streams): not available any more
+                        }
                         let msg = &fc.all_msgs[msg_idx - fc.drained_all_msgs];
                         let payload_as_text = msg.payload_as_text().unwrap_or_default();
                         let bin_msg = remote_types::BinDltMsg {
@@ -2020,6 +2032,9 @@ fn process_file_context<T: Read + Write>(
                     } else {
                         i
                     };
+                    if msg_idx < fc.drained_all_msgs {
+                        continue; // drained already (collect mode one_pass_streams): not available any more
+                    }
                     fc.all_msgs[msg_idx - fc.drained_all_msgs]
                         .header_as_text_to_write(&mut writer)
                         .unwrap();
